@@ -202,11 +202,11 @@ def time_limit(n): return 200e6 + 50e3 * n
 
 def modules_part(ck, binp, tier, seed, dist, scale):
     if tier == "quick":
-        nv, nm, nr, par = 60, 900, 400, 4
+        nv, nv2, nm, nr, par = 60, 100, 900, 400, 4
     else:
-        nv, nm, nr, par = 1200, 36000, 12000, 6
-    nv, nm, nr = nv * scale, nm * scale, nr * scale
-    rc, out = sh([binp, "-mode", "run", "-seed", str(seed), "-nvalid", str(nv), "-nmut", str(nm), "-nrand", str(nr),
+        nv, nv2, nm, nr, par = 1200, 4000, 36000, 12000, 6
+    nv, nv2, nm, nr = nv * scale, nv2 * scale, nm * scale, nr * scale
+    rc, out = sh([binp, "-mode", "run", "-seed", str(seed), "-nvalid", str(nv), "-nvalid2", str(nv2), "-nmut", str(nm), "-nrand", str(nr),
                   "-par", str(par), "-work", os.path.join(WORK, "cases")], timeout=3000 if tier == "quick" else 14000)
     inputs, res, died = {}, {}, {}
     between = []
@@ -264,7 +264,7 @@ def modules_part(ck, binp, tier, seed, dist, scale):
         inp = inputs[i]
         d["class"][inp["class"]] = d["class"].get(inp["class"], 0) + 1
         if inp["class"] in ("mut", "probe"):
-            k = re.sub(r"\(.*", "", inp.get("mut") or "")
+            k = re.sub(r"\(.*", "", (inp.get("mut") or "").replace("g2:", ""))
             d["mutations"][k] = d["mutations"].get(k, 0) + 1
         r = res.get(i)
         if not r: continue
@@ -300,7 +300,8 @@ def modules_part(ck, binp, tier, seed, dist, scale):
 
     for i in ids:
         inp, r, dd = inputs[i], res.get(i), died.get(i)
-        base = {"id": i, "class": inp["class"], "mutation": inp.get("mut"), "len": len(inp["hex"]) // 2, "wasm_hex": inp["hex"][:4000]}
+        base = {"id": i, "class": inp["class"], "mutation": inp.get("mut"), "len": len(inp["hex"]) // 2,
+                "wasm_hex": inp["hex"] if inp["class"].startswith("valid") else inp["hex"][:4000]}
         site = site_of(hots.get(i, 0))
         if dd:
             err = dd.get("stderr", "")
@@ -336,8 +337,11 @@ def modules_part(ck, binp, tier, seed, dist, scale):
         if ci.get("ok") != cc.get("ok"):
             report("engines-differ-on-acceptance", {"kind": "engines-differ-on-acceptance"}, dict(base, interp=ci, compiler=cc))
         # valid by construction => accepted
-        if inp["class"] in ("valid", "validx") and not (ci.get("ok") and cc.get("ok")):
-            report("valid-rejected", {"kind": "valid-rejected", "cause": "generated"}, dict(base, interp=ci, compiler=cc))
+        if inp["class"] in ("valid", "validx", "valid2") and not (ci.get("ok") and cc.get("ok")):
+            report("valid-rejected", {"kind": "valid-rejected", "cause": "generated", "generator": inp["class"]}, dict(base, interp=ci, compiler=cc))
+        # valid by construction => both engines compute the same results / trap classes (NaNs by class)
+        if r.get("engdiff"):
+            report("engines-differ", {"kind": "engines-differ", "generator": inp["class"]}, dict(base, diff=r["engdiff"], run=r.get("run")))
         if inp["class"] == "probe" and (inp.get("mut") or "").startswith("custom-empty-payload") and not (ci.get("ok") and cc.get("ok")):
             report("valid-rejected", {"kind": "valid-rejected", "cause": "empty-custom-section-at-end"}, dict(base, interp=ci, compiler=cc))
         # accepted => runs without an internal failure
@@ -397,7 +401,9 @@ def run(tier, seed):
     ck.cases += dist.pop("_leb_cases", 0)
     ck.dist = dist
     ck.extra["rule"] = ("LEB128: all byte strings of length <= 2 on the 8 decoders (checksums recomputed from the model in Coq) + boundary/random strings up to 11 bytes + encoders; "
-                        "modules: generator programs (valid by construction, also with name/custom/data-count sections and padded sizes), 16 structured mutation operators, "
+                        "modules: generator programs (valid by construction, also with name/custom/data-count sections and padded sizes), a second by-construction-valid generator "
+                        "for type/structure coverage (all value types, multi-value block types with parameters, tables, references, bulk memory, SIMD lanes; engines compared with "
+                        "each other), 16 structured mutation operators, "
                         "random bytes, directed probes; each input decoded, compiled on both engines (time and TotalAlloc against length) and, when accepted, "
                         "instantiated and its exports called on both engines in a child under RLIMIT_AS; non-trivial = non-random inputs the decoder accepts, distinct by bytes")
     if not proofs_ok and not any(not v.get("no_input") for v in ck.violations):
